@@ -195,18 +195,40 @@ PROP = dict(
     class_names={0: "pdep", 1: "encode_2d_slow", 2: "encode_2d cell", 3: "encode_3d cell", 4: "all cells 2-D", 5: "all cells 3-D",
                  6: "segment Ok", 7: "segment panic", 8: "segment hang", 9: "encoder panic"},
     trusted_base=[
-        "axioms: none (every theorem of Properties/C08.v is closed under the global context)",
+        "axioms: none for the curve, pdep and encoder theorems (closed under the global context); the segment_to_segment "
+        "theorems (C08_seg_*, C08_bits_are_valid_floats) use Flocq 4.1 and therefore the standard real-number axioms of Coq: "
+        "ClassicalDedekindReals.sig_forall_dec, ClassicalDedekindReals.sig_not_dec, "
+        "FunctionalExtensionality.functional_extensionality_dep, Classical_Prop.classic",
+        "Flocq 4.1 (BinarySingleNaN: Bminus/Bmult/Bdiv/Bleb correctness; PrimFloat: SpecFloat rounding = Flocq rounding)",
         "the x86 PDEP instruction = pdep_u64_fallback (compared on every pdep case; the model is the fallback loop)",
+        "modelled, not verified: termination of the nextafter loop of segment_to_segment (the theorems are about returned "
+        "factors; every generated case returns within the model's fuel of 200 iterations, a hang is reported as a violation)",
     ],
     assumptions=[
         "encoders are called with x, y, z < 2^order and order <= MAX_ORDER (32 / 21), as HilbertCurve::partition guarantees",
+        "segment_to_segment: finite min <= max, finite values inside [min, max], order < 64",
         "debug profile (debug_assert! and shift-overflow checks on), as built by the harness",
     ],
 )
 
 MANIFEST = dict(
-    text="(filled in below)",
+    text="Proved in Coq for EVERY order n and EVERY start state, by induction on n over a finite certificate about the tables "
+         "(each row a permutation, consecutive quadrants adjacent, child entry/exit corners glue; evaluated by vm_compute on the "
+         "4x4 and 12x8 tables the translator re-reads from hilbert_curve.rs on every run): the 2-D and 3-D cell->index maps are "
+         "bijections [0,2^n)^D <-> [0,2^(Dn)) with explicit decoders, cells of consecutive indices share a face, and dropping D "
+         "index bits gives the parent cell's index. Proved about a line-by-line model of the code (u64 wraps explicit): "
+         "pdep_u64_fallback = bit deposit (pdep_spec) and its two interleaving instances; encode_2d_slow, the LUT-driven encode_2d "
+         "(12-bit chunks, zero-padded last chunk) and encode_3d return exactly that curve's index for all orders <= 32 / 21 "
+         "(the pinned encode_2d is refuted at order 32 by a kept witness); segment_to_segment is monotone and maps "
+         "[min,max] into [0,2^order-1] for all finite intervals (Flocq), with the factor shown to be a valid finite non-negative "
+         "float; the pinned uncapped factor is shown never to leave its loop on a subnormal-width interval. The model is "
+         "compared with the implementation on generated inputs each run; exhaustive sweeps (orders <= 12 / 7 in the thorough "
+         "tier) check bijectivity, adjacency and the recurrence directly on the implementation.",
     design_ref="DESIGN.md §7 C08",
-    note="",
-    technique="Coq proof (induction on the order over a finite table certificate) + translator + model/implementation correspondence",
+    note="Trusted: Coq kernel; Flocq 4.1 and the real-number axioms for the float lemmas only; the model<->code tie is the "
+         "translator (tables, masks, limits, the shapes of the loops and of the two repaired expressions) plus differential runs "
+         "(3k/24k cases); PDEP hardware = fallback is tested, not proved; termination of the nextafter loop is checked per case, "
+         "not proved.",
+    technique="Coq proof (induction on the order over a finite table certificate; Flocq for the float lemmas) + translator + "
+              "model/implementation correspondence + exhaustive sweeps of small orders",
 )
